@@ -412,7 +412,15 @@ class SpecMixin:
             self.canon_assume(name, st.arr(name, sort), st, ref=sv.t)
 
     def canon_assume(self, name, arr, st, ref=None):
-        """dict encoding invariant: values outside the domain are the default"""
+        """encoding invariants of havocked arrays: list lengths are non-negative; dict values outside the
+        domain are the default"""
+        if name.startswith("L.") and name.endswith(".len"):
+            if ref is not None:
+                st.assume(arr[ref] >= 0)
+            else:
+                r = z3.Int(fresh_name("r"))
+                st.assume(z3.ForAll([r], arr[r] >= 0, patterns=[arr[r]]))
+            return
         if not (name.startswith("D.") and name.endswith(".val")):
             return
         dn = name[:-4] + ".dom"
@@ -422,10 +430,10 @@ class SpecMixin:
         k = z3.Const(fresh_name("k"), ks)
         dflt = default_of(vs) if not name.split(".")[2] == "ref" else z3.IntVal(-1)
         if ref is not None:
-            st.assume(z3.ForAll([k], z3.Implies(z3.Not(dom[ref][k]), arr[ref][k] == dflt)))
+            st.assume(z3.ForAll([k], z3.Implies(z3.Not(dom[ref][k]), arr[ref][k] == dflt), patterns=[arr[ref][k]]))
         else:
             r = z3.Int(fresh_name("r"))
-            st.assume(z3.ForAll([r, k], z3.Implies(z3.Not(dom[r][k]), arr[r][k] == dflt)))
+            st.assume(z3.ForAll([r, k], z3.Implies(z3.Not(dom[r][k]), arr[r][k] == dflt), patterns=[arr[r][k]]))
 
     def arrays_of(self, ty, st):
         if ty.kind == "dict":
